@@ -144,7 +144,7 @@ PROPS = {
 }
 for k in ("C07", "C09", "C10", "C11", "C12", "C13", "C14"):
     PROPS.setdefault(k, {"claimed": False})
-CLAIMED_NOW = {"C15", "C16", "C17", "C18", "C19", "C20"}
+CLAIMED_NOW = {"C15", "C16", "C17", "C18", "C19", "C20", "C01", "C02", "C03", "C04", "C05", "C06"}
 for k, v in PROPS.items():
     if k not in CLAIMED_NOW:
         v["claimed"] = False
